@@ -33,7 +33,7 @@ Data == <<
   Series(<< <<"__name__","ho2">>, <<"a","x">> >>, [i \in 1..8 |-> Smp(i + 4, "f", 10 * i)]),
   Series(<< <<"__name__","hp">>, <<"a","x">> >>, [i \in 1..6 |-> Smp(i - 1, IF i = 6 THEN "s" ELSE "f", i)]),
   Series(<< <<"__name__","hp2">>, <<"a","x">> >>, [i \in 1..6 |-> Smp(i + 6, "f", 10 * i)]),
-  Series(<< <<"__name__","r">>, <<"A","first">>, <<"a","x">>, <<"b","9">>, <<"zz","last">> >>, [i \in 1..Span |-> Smp(i - 1, "f", 1)]) >>
+  Series(<< <<"__name__","r">>, <<"A","first">>, <<"__meta","k">>, <<"a","x">>, <<"b","9">>, <<"zz","last">> >>, [i \in 1..Span |-> Smp(i - 1, "f", 1)]) >>
 
 MN == <<Sel(<<Re("__name__", "m|n", <<"m", "n">>)>>)>>
 MNX == <<Sel(<<Re("__name__", "m|n", <<"m", "n">>), Eq("a", "x")>>)>>
